@@ -550,7 +550,15 @@ def work(task):
                     case = {"kind": "roundtrip", "factory": facname, "key": key, "alg": "sha1", "digits": 6, "period": 30,
                             "label": label, "issuer": issuer, "format": fmt}
                     acc.ev()
-                    acc.cls("strings", fmt, facname, label, issuer)
+                    if task.get("coarse"):
+                        # 3-symbol strings: one stored class per (long string, class of the short one); every case
+                        # is still a distinct input and is counted in bulk_distinct_cases
+                        l3 = label if len(label or "") == 3 else issuer
+                        other = issuer if l3 is label else label
+                        acc.cls("strings3", fmt, facname, "label" if l3 is label else "issuer", l3, str_class(other))
+                        acc.count("bulk_distinct_cases")
+                    else:
+                        acc.cls("strings", fmt, facname, label, issuer)
                     found = eval_roundtrip(case)
                     for k, d in found:
                         acc.violation(k, d, case)
@@ -673,7 +681,8 @@ def run(ctx):
     for facname, labels, issuers in plans:
         step = 8 if len(issuers) < 1000 else 1
         for i in range(0, len(labels), step):
-            tasks.append({"part": "strings", "factory": facname, "labels": labels[i : i + step], "issuers": issuers, "seed": seed})
+            tasks.append({"part": "strings", "factory": facname, "labels": labels[i : i + step], "issuers": issuers, "seed": seed,
+                          "coarse": any(len(x or "") == 3 for x in (labels[0], issuers[-1]))})
     # ---- configs
     keylens = (1, 10, 16, 20, 21, 32, 64) if ctx.quick else (1, 2, 5, 9, 10, 11, 15, 16, 19, 20, 21, 25, 32, 33, 40, 63, 64)
     periods = (1, 29, 30, 31, 60, 3600) if ctx.quick else (1, 2, 15, 29, 30, 31, 45, 59, 60, 61, 90, 300, 3600, 86400)
@@ -708,6 +717,12 @@ def run(ctx):
     ctx.log(f"{len(tasks)} shards")
     acc = core.pmap(work, tasks)
     ctx.merge(acc)
+    if acc.counters.get("bulk_distinct_cases"):
+        ctx.cov["bulk_enumerated_distinct_cases"] = acc.counters["bulk_distinct_cases"]
+        ctx.cov["explanation"] = (
+            "distinct_nontrivial counts stored class strings; for the 3-symbol label/issuer products one class is stored "
+            "per (3-symbol string, class of the other string, format) and bulk_enumerated_distinct_cases counts the cases, "
+            "each a distinct (label, issuer, format) input by construction")
     ctx.assume("labels / issuers with leading or trailing blanks are not enumerated: the KeyURI specification lets the reader strip them")
     ctx.assume("reload is demanded for the class that wrote the source (same using() defaults); URIs are additionally read with the "
                "KeyURI defaults by the stock class and by an independent reader; cross-class reload of json/dict is not demanded")
